@@ -22,6 +22,10 @@ def run(cx):
     cx.rule("C01.R5", "per-call reply state: a reply is flagged `continues` (i.e. is not the final one) only through the gate of reply_struct — set_continues stores its argument, wants_more() is exact, the mismatch error writes nothing (shared with C05.R1)")
     from .C05 import r1 as reply_gate
     reply_gate(cx, rule="C01.R5")
+    cx.rule("C01.R6", "a oneway request is never answered (its reply would be taken for the next request's): every protocol write on Call.writer is reachable only for is_oneway()==false, and is_oneway() is exactly request.oneway == Some(true) (shared with C04.R1)")
+    from .C04 import r1 as oneway_guard, r1_flag as oneway_flag
+    oneway_guard(cx, rule="C01.R6")
+    oneway_flag(cx, rule="C01.R6", only=("is_oneway",))
 
 def r2(cx, h):
     body, cfg, du = h.body, h.cfg, h.du
@@ -107,7 +111,7 @@ def r4(cx):
         err = variant_edge(sw, 1)
         shut = {x.bb for x in body.calls("=shutdown")}
         rets = cfg.returns()
-        passes = cfg.must_pass(err[2], rets, shut)
+        passes = cfg.must_pass_after(err, rets, shut)
         again = t.bb in cfg.after(err)
         cx.check(passes and not again, "C01.R4", key, site,
                  ("a path from handle()'s Err edge reaches the worker's return without Stream::shutdown; " if not passes else "") +
